@@ -1,4 +1,4 @@
-From Mds Require Import Common.ExtractBase Gen.SliceIdx Slice.SliceUtilModel Slice.SliceUtilSpec Slice.SliceUtilExtraModel.
+From Mds Require Import Common.ExtractBase Gen.SliceIdx Slice.SliceUtilModel Slice.SliceUtilSpec Slice.SliceUtilExtraModel Slice.SliceUtilModel64.
 Require Extraction.
 Require Import ExtrOcamlBasic.
 Extraction "sliceutil_model.ml" SliceUtilModel.partition SliceUtilModel.rotate SliceUtilModel.rotate_impl
@@ -6,4 +6,5 @@ Extraction "sliceutil_model.ml" SliceUtilModel.partition SliceUtilModel.rotate S
   SliceUtilModel.at_ SliceUtilModel.ptr_at SliceUtilModel.can_overwrite SliceUtilModel.window
   SliceUtilSpec.rotate_list SliceUtilSpec.batch_lens SliceUtilSpec.stripe_spec SliceUtilSpec.at_pos
   SliceUtilExtraModel.zero_view SliceUtilExtraModel.select_loop SliceUtilExtraModel.matching_loop
-  SliceUtilExtraModel.map_keys SliceUtilExtraModel.take_consumer base_types.
+  SliceUtilExtraModel.map_keys SliceUtilExtraModel.take_consumer
+  SliceUtilModel64.rotatez SliceUtilModel64.chunksz SliceUtilModel64.w64 SliceUtilModel64.wid SliceUtilModel64.above62 base_types.
